@@ -211,6 +211,9 @@ def part_chain_sampler(ctx, pq, quick, rng):
             if compare_laws(ctx, key, f"PassiveSimulator sampling after {name} on {inp}", got, tot - rej, law, replay):
                 continue
             ctx.validated()
+            if len(law) > 1:
+                ctx.sample({"input": inp, "program": name, "TLC_law_of_accepted_sample": {str(k): round(v, 9) for k, v in law.items()}, "acceptance_probability": round(spec_acc, 9),
+                            "implementation_law_from_%d_RNG_paths" % npaths: {str(k): round(v / (tot - rej), 9) for k, v in got.items()}}, limit=3)
             # retries are independent of the aborted trial: with two trials allowed the conditional law is unchanged
             if post and rej > 1e-12 and counters["two_trial"] < (40 if quick else 400) and npaths <= 400:
                 counters["two_trial"] += 1
